@@ -696,7 +696,8 @@ class Labeller:
                 l = self.lab(e.args[0], at, env)
                 return plural(l) if l.kind in ('SRC', 'LINK') else l
             if fn.id == 'WBS':
-                return Lab('FRESHWBS') if not e.args and not e.keywords else Lab('WBSARGS')
+                # keyword arguments other than `tasks` only decorate the hidden root sentinel: still an empty new WBS
+                return Lab('FRESHWBS') if not e.args and all(k.arg not in (None, 'tasks') for k in e.keywords) else Lab('WBSARGS')
             if fn.id in ('len', 'str', 'repr', 'int', 'float', 'bool', 'id', 'type', 'isinstance', 'hash'):
                 return Lab('VAL')
             if fn.id in ('list', 'dict', 'set') and not e.args:
@@ -3036,6 +3037,24 @@ class CloneAnalysis:
                         f"subtree() the id of a non-selected member can resolve to an outside task. Hand outside link ends to the copy as "
                         f"themselves: `[x if x.wbs != self else map[x.id] for x in src.{rels[0] if rels else 'predecessors'} "
                         f"if x.wbs != self or x.id in map]`")
+        eq = self.prog.find_method('WBS', '__eq__')
+        if eq is not None:
+            # the owner test `x.wbs != self` is an identity test only as long as WBS does not define equality
+            seen_cmp = set()
+            for F in {self.f, self.g} | {h for h, _ in self.helpers}:
+                for n in ast.walk(F.node):
+                    if isinstance(n, ast.Compare) and len(n.ops) == 1 and isinstance(n.ops[0], (ast.Eq, ast.NotEq)):
+                        a, b = n.left, n.comparators[0]
+                        for x, y in ((a, b), (b, a)):
+                            if isinstance(x, ast.Attribute) and x.attr == 'wbs' and isinstance(y, ast.Name) and y.id == F.self_name \
+                                    and src(n) not in seen_cmp:
+                                seen_cmp.add(src(n))
+                                self.refute(F, n, f"<x>.wbs {'!=' if isinstance(n.ops[0], ast.NotEq) else '=='} self [owner test by equality, "
+                                                  f"WBS.__eq__ defined]",
+                                            f"`{src(n)}` decides whether a linked task is outside the source WBS with `{'!=' if isinstance(n.ops[0], ast.NotEq) else '=='}`, "
+                                            f"and WBS defines `__eq__` ({eq.loc()}): the comparison is structural, so a task living in ANOTHER "
+                                            f"WBS that merely looks the same (e.g. an earlier clone of the source) counts as a member - its "
+                                            f"link is dropped or rewired by id; the owner test must be an identity test (`is not self`)")
         for st_, r_, txt_ in self._outside_by_id:
             self.refute(f, st_, f"<map>[<x>.id] [{r_}: outside link end looked up by id]",
                         f"`{txt_}` resolves a link end of `{r_}` by its id in the map of member clones BEFORE (or without) asking whether it is "
@@ -3071,11 +3090,23 @@ class CloneAnalysis:
                 self.undecided(g, self.gcall, self.gcall, "__clone_tasks is not called with the roots given to __clone")
                 return
         ctors = [n for n in walk_no_nested(g.node) if isinstance(n, ast.Call) and isinstance(n.func, ast.Name) and n.func.id == 'WBS']
+        stop = False
         for c in ctors:
-            if c.args or c.keywords:
+            if c.args or any(k.arg == 'tasks' for k in c.keywords):
                 self.refute(g, c, c, f"`{src(c)[:70]}`: WBS(tasks) clones the given tasks once more WITHOUT relations (and kwargs land on "
                                      f"the root sentinel); the copy must be assembled as WBS() followed by `.roots = [...]`")
-        if any(c.args or c.keywords for c in ctors):
+                stop = True
+            elif any(k.arg is None and self._from_own_dict(G, k.value, c) for k in c.keywords):
+                self.refute(g, c, c, f"`{src(c)[:70]}` passes the public attributes of the source WBS as keyword arguments to the "
+                                     f"constructor: WBS.__init__ hands its kwargs to the hidden root TASK, they do not become attributes of "
+                                     f"the new WBS - the copy loses the WBS-level attributes (they must be set on the new WBS one by one)",
+                            'wbs-attrs')
+                stop = True
+            elif any(k.arg is None for k in c.keywords):
+                self.undecided(g, c, c, f"`{src(c)[:70]}`: the new WBS is created with `**` arguments the rule cannot enumerate (a `tasks` "
+                                        f"entry would clone tasks without relations); keyword arguments only reach the hidden root task")
+                stop = True
+        if stop:
             return
         stores = []
         for st, tgt, val in facts.attr_stores(g):
@@ -3182,6 +3213,18 @@ class CloneAnalysis:
                     self.undecided(g, r, r, "__clone returns something other than the WBS whose roots were attached")
         if not self.merged:
             self._uses(g, G, g.node, None, False)          # merged: already enumerated by the 'externals' clause
+
+    def _from_own_dict(self, G: Labeller, e: ast.AST, at_expr) -> bool:
+        """e (a `**` argument) is a dict built from the source's own attributes: {k: v for k, v in self.__dict__.items() ...}"""
+        cn = G.node(at_expr)
+        x = G.expand(e, cn) if cn is not None else e
+        if match("dict($d)", x):
+            x = x.args[0]
+        if isinstance(x, ast.DictComp) and len(x.generators) == 1:
+            ds = _dict_source(x.generators[0].iter)
+            return ds is not None and isinstance(ds[0], ast.Name) and ds[0].id == self.g.self_name
+        ds = _dict_source(x) if not isinstance(x, ast.DictComp) else None
+        return ds is not None and isinstance(ds[0], ast.Name) and ds[0].id == self.g.self_name
 
     def _own_public_state(self, cls: str, clause: str, loop_txt: str):
         """the attribute copy loop hands every PUBLIC instance attribute to the copy by reference.  Code of the class itself must
